@@ -8,18 +8,18 @@ LEVEL_TEXT = {
  "C04": "MC_Tree checks the cut is defined and, on fork-free trees, at height H-c+1; trace validation compares get_utxos(min_confirmations=c) for c = 0..len+2 with the ledger as of the specification's CutBlock on forked histories; exhaustive replay of small fork trees (scen.enum_trees) incl. heavy-short vs light-long branches; MC_Ledger (thorough) checks the mechanisms against the reference for every c",
  "C05": "TLC checks on recorded executions both the relation between the two answers of the code (balance vs sum of all pages of get_utxos for the same address, filter and state; same error classes) and each of them against the reference ledger; query and update variants alternate; MC_Ledger: BalanceAgrees / UtxosAgree on every reachable state of bounded histories incl. every pause position",
  "C06": "trace validation of paginated walks interleaved with block arrivals, fork growth, stabilisation, upgrades: the specification fixes the expected set at the first page (ledger as of the named tip) and every later page must be a fresh, ordered, size-bounded part of it naming the same tip, or UnknownTipBlockHash iff the tip left the tree; arbitrary page blobs must give an explicit error or an answer",
- "C07": "MC_Tree checks that stable chain + best chain is linked with exact heights in every reachable state including paused ingestion; trace validation compares every get_block_headers answer (many (start,end) pairs, at every pause point of sliced ingestions, after upgrades) with the specification and checks 80-byte size and prev-hash linkage on the real bytes",
+ "C07": "MC_Tree checks that stable chain + best chain is linked with exact heights in every reachable state including paused ingestion; trace validation compares every get_block_headers answer (many (start,end) pairs, at every pause point of sliced ingestions, after upgrades) with the specification and checks 80-byte size and prev-hash linkage on the real bytes; chains of more than 100 unstable blocks and ranges across a stable boundary beyond 100 exercise the start + 99 cap",
  "C08": "trace validation: the ingestion position after every budgeted heartbeat is compared with the specification's operation model (one op per input / output), every query answer at every pause point is compared with the reference semantics (which ignores the in-progress block), no request may be issued while ingesting, and the post-state after completion must equal the specification's (schedule independent) state; MC_Ledger: the mechanisms equal the reference at every pause position of every bounded history (one ingestion operation per step)",
  "C09": "trace validation with upgrades inserted at every phase (response stored, partial pages received, ingestion paused, call in flight): post_upgrade state, configuration and all query answers must equal the specification's, in which Upgrade only resets the fetch state; subsequent behaviour is validated against the same specification as runs without upgrades",
  "C10": "MC_Tree enumerates every delivery (new, duplicate, orphan, stale-parent) on bounded trees; trace validation delivers valid blocks mixed with every defect class (truncated, garbage, empty, bad PoW, bad merkle root, duplicated transactions, no coinbase, no transactions, wrong bits, stale / future timestamps) and garbage / invalid / unconnected announced headers, and compares tree, counters and every other projected variable",
  "C13": "trace validation with overlapping heartbeats through the get_successors yield point: every issued request (initial with anchor + preorder of the tree, follow-up index), the single-flight flag, the stored (partial) response and its byte-exact reassembly, reject handling and counters are compared with the specification after every step; MC_Sync: TLC explores every interleaving of 2 (thorough 3) overlapping heartbeats with complete / partial / follow-up / reject replies, garbage items, upgrades and syncing switches on a small universe: at most one outstanding request, flag iff outstanding, follow-ups numbered, no duplicates, and under fairness every valid block is eventually applied",
  "C14": "MC_Tree checks the announced-header bookkeeping invariants; trace validation checks refusal/answer of every data endpoint against the specification's gate (api flag, requested network, max announced height vs tip + 2) under flag changes, forks and stabilisation; refusals must leave the projected state unchanged",
- "C15": "trace validation compares every fee percentile answer and the cache (tip, 101 values) with the specification's nearest-rank percentiles over the fee rates (real vsize from the harness) of the best chain's unstable blocks, eager and lazy, across reorgs and upgrades",
+ "C15": "trace validation compares every fee percentile answer and the cache (tip, 101 values) with the specification's nearest-rank percentiles over the fee rates (real vsize from the harness) of the best chain's unstable blocks, eager and lazy, across reorgs and upgrades; a scenario with 13,600 fee-paying transactions exercises the 10,000 cut inside a block (thorough: the cut at ten other positions)",
  "C20": "trace validation compares after every message the hook snapshot (block bodies in stable memory, tx-out reference counts, per-block per-address added / removed outpoints, cached tip depths, announced-header indexes) with what the specification derives declaratively from the tree; MC_Ledger: CacheExact (cache domain and reference counts = what the tree's blocks refer to) on every reachable state of bounded histories; directed shared-spend / fork-discard scenarios",
  "C11": "HeaderRules.tla states the consensus rules (median-time-past, +2h, compact targets as BigNat values, 2016-block retarget with 4x clamp, BIP94 first-block base on testnet4, 20-minute rule and walk-back, no retargeting on regtest); TLC validates the implementation's required target (hook), timestamp verdict and full validate_header verdict on synthetic chains around retarget boundaries on the three networks, mined regtest candidates with every field perturbed, and the 2633 real mainnet headers shipped with the repository (each also perturbed); BigNat arithmetic is model-checked against native arithmetic; MC_Header: TLC explores every honest chain of a scaled-down instance (retarget interval 4) on the three networks: required targets below the limit and canonical, mainnet steps clamped to 4x, regtest fixed, walk-back = its declarative reading, median-time-past monotone",
  "C12": "MC_Merkle: TLC proves on a collision-free hash abstraction, for every list over n <= 6 (thorough 7) transactions up to length 8 (9), that a list with the original merkle root that differs from the original repeats a transaction, and prints every such mutation; each is replayed on real blocks (real double-SHA256 root preserved, DuplicateTransactions required) together with the higher-level members of the family up to n = 14, blocks whose header honestly commits to a list with a repeated transaction, reorderings, removals, swaps, repeats and the unmutated block; TLC validates every verdict, also end-to-end through state::insert_block",
- "C16": "TLC validates the cycles accepted by every recorded call (mock cycles balance) against Charged / Required of Canister.tla under random small fee tables (zero, cap binding), instruction counts set through the performance-counter hook, cycles attached around the maximum, request-level errors and gate refusals; the client constants of ic-cdk-bitcoin-canister are compared with the default fee tables of the three networks as BigNat values",
- "C17": "MC_Watchdog: TLC explores all rounds over a 6-value grid for 4 providers from all states and checks latest-round-only, order independence and the decision as worded; the real watchdog is driven through its fetch path with ic_http mocks (all multisets on the grid for the five targets, failures of ten kinds, consecutive rounds so that stale heights would show) and TLC validates every decision",
+ "C16": "TLC validates the cycles accepted by every recorded call (mock cycles balance) against Charged / Required of Canister.tla under random small fee tables (zero, cap binding), instruction counts set through the performance-counter hook, cycles attached around the maximum, request-level errors and gate refusals; the client constants of ic-cdk-bitcoin-canister are compared with the default fee tables of the three networks as BigNat values; TLAPS proves for every fee table whose maxima cover the base fees, every instruction count and payload length: charged <= required, request-level errors charge exactly the base / flat fee, and a call that carried enough is never charged more than it carried (spec/proofs/FeesProofs.tla, 25 obligations, about the very operators the trace specification uses)",
+ "C17": "MC_Watchdog: TLC explores all rounds over a 6-value grid for 4 providers from all states and checks latest-round-only, order independence and the decision as worded; the real watchdog is driven through its fetch path with ic_http mocks (all multisets on the grid for the five targets, failures of ten kinds, consecutive rounds so that stale heights would show) and TLC validates every decision; MC_System composes the decision with the canister's api flag as the tick really runs (four awaited steps, operator interventions, failed calls, overlapping ticks): only decisions of stored rounds are written, and under fairness a canister that stays behind is eventually disabled, one in the band eventually enabled; TLAPS proves the decision as worded for every number of explorers and every height (spec/proofs/WatchdogProofs.tla, 17 obligations)",
  "C18": "Transform.tla gives the result as a function of endpoint kind and response class; the harness calls every endpoint's transform (and the exported query) on constructed responses of every class (heights up to 2^64-1, wrong types, missing members, truncation, invalid UTF-8, arbitrary statuses and headers, whitespace / member-order / extra-member variants, long non-JSON pages with multi-byte characters at every offset) and on arbitrary byte strings; TLC validates status, absence of headers, canonical body",
  "C19": "TLC validates every recorded send_transaction call (result, counter, forwarded payload unchanged, cycles) against SendTx of Canister.tla; payloads are serialisations of random transactions (legacy, segwit, zero inputs / outputs, unusual shapes: null / zero / maximal outpoints, duplicate inputs, extreme values, versions, lock times, script sizes), truncated, extended, prefixed, bit-flipped, garbage, empty, classified by an independent BIP144 parser in the harness; all access flags and requested networks",
 }
@@ -47,7 +47,7 @@ def main():
             {"name": "tlc-trace-validation", "path": "/verif/spec/TraceCanister.tla", "serves_properties": [p for p in claimed if p not in ("C11", "C12", "C17", "C18")],
              "kind_free_text": "TLC checks ndjson traces recorded from the real canister (harness `run`) against Canister.tla"},
             {"name": "tlc-model-checking", "path": "/verif/spec/MC_Tree.tla", "serves_properties": ["C01", "C02", "C03", "C04", "C05", "C07", "C08", "C10", "C11", "C12", "C13", "C14", "C16", "C17", "C20"],
-             "kind_free_text": "TLC exhaustive exploration of bounded instances of the specification (MC_Tree, MC_Ledger, MC_Sync, MC_Header, MC_Merkle, MC_Watchdog, MC_BigNat)"},
+             "kind_free_text": "TLC exhaustive exploration of bounded instances of the specification (MC_Tree, MC_Ledger, MC_Sync, MC_Header, MC_System, MC_Merkle, MC_Watchdog, MC_BigNat); TLAPS proofs of unbounded statements about Fees.tla and Watchdog.tla (spec/proofs)"},
             {"name": "tlc-decision-validation", "path": "/verif/spec/TraceDecision.tla", "serves_properties": ["C11", "C12", "C16", "C17", "C18"],
              "kind_free_text": "TLC checks recorded calls of the implementation's decision functions against TLA+ operators (TraceDecision.tla, TraceHeaders.tla)"},
             {"name": "harness", "path": "/verif/harness", "serves_properties": claimed,
